@@ -36,6 +36,10 @@ type Stats struct {
 	TraceHashes                        []string
 	Workers                            int
 	Desc                               string
+	// MapDep names the library routine whose Go-map iteration legitimately
+	// influences this case's execution order or bytes ("" = none): such a case is
+	// compared only on its order-free parts by the determinism self-test.
+	MapDep string
 	Probes                             map[string]int
 	LockWaits                          int
 	Sites                              map[string]int
@@ -143,7 +147,7 @@ func RunCase(t *testing.T, c *Case, work, sched *choice.Source, st *Stats) (fs [
 			fs = append(fs, Finding{"c12|" + f.Sig, f.Msg})
 		}
 		st.Steps, st.Preempt, st.Tasks, st.MaxRunnable = cst.Steps, cst.Preempt, cst.Tasks, cst.MaxRunnable
-		st.TraceHashes, st.Workers, st.Desc = cst.TraceHashes, cst.Workers, cst.Desc
+		st.TraceHashes, st.Workers, st.Desc, st.MapDep = cst.TraceHashes, cst.Workers, cst.Desc, cst.MapDep
 		return fs
 	}
 	panic("unknown kind " + c.Kind)
